@@ -19,7 +19,9 @@ pub const KNOWN_NOTFOUND_CONFLATION: &str =
 const EXTRA_NAMES: [&str; 5] = ["foo", "f1", "math::nope", "str::x", "ä"];
 
 fn all_names() -> Vec<String> {
-    BUILTINS.iter().map(|s| s.to_string()).chain(EXTRA_NAMES.iter().map(|s| s.to_string())).collect()
+    // plus long identifiers (lengths around 64 / 128 / 256 bytes)
+    let long = [31usize, 32, 63, 64, 65, 127, 128, 129, 255, 256, 300].iter().map(|n| format!("f{}", "n".repeat(n - 1)));
+    BUILTINS.iter().map(|s| s.to_string()).chain(EXTRA_NAMES.iter().map(|s| s.to_string())).chain(long).collect()
 }
 
 /// Argument menu: (source text, is-variable)
@@ -416,7 +418,7 @@ fn check_empty_toggles() -> Outcome {
 
 pub fn run(rep: &Report) {
     rep.set_rule(
-        "complete configuration matrix: 49 builtin names + 5 non-builtin names x {HashMapContext switch off/on x user \
+        "complete configuration matrix: 49 builtin names + 5 non-builtin names + 11 long identifiers (31..300 bytes) x {HashMapContext switch off/on x user \
          function named n present/absent x variable named n present/absent x (as built, after clone, after \
          clear_functions, after clear, switch toggled twice, after clone_from into a context with the opposite switch, clear_functions / clear while another copy is alive), user function either recording or itself failing with FunctionIdentifierNotFound, EmptyContext, EmptyContextWithBuiltinFunctions} x call \
          forms n(x), n x, n(x, 2), n(x, 2, 3), n(true, x, 2), m n x, n m x, n(), n (), `n; n(1)` and variable forms n, n + 1, n - 1, `n, 1` with x \
